@@ -49,15 +49,17 @@ def wf_line(ent):
     return '\t'.join(f)
 
 
-def evaluate_wf(entities):
-    """entities: list of entity dicts with non-None 'values' -> list of (typeNameOK, [(shapeOK, definiteOK, tripleOK)])"""
+def evaluate_wf(entities, with_sentinel=False):
+    """entities: list of entity dicts with non-None 'values' -> list of (typeNameOK, [(shapeOK, definiteOK, tripleOK)])
+    (with_sentinel: 4-tuples, the last bit is sentinelOK)"""
     if not entities:
         return []
     out = common.driver([wf_line(e) for e in entities])
     res = []
+    n = 4 if with_sentinel else 3
     for o in out:
         parts = o.split(' ')
-        res.append((parts[0] == '1', [(b[0] == '1', b[1] == '1', b[2] == '1') for b in parts[1:]]))
+        res.append((parts[0] == '1', [tuple(b[i] == '1' for i in range(n)) for b in parts[1:]]))
     return res
 
 
@@ -107,4 +109,16 @@ def generated_jobs(rng, thorough):
             jobs.append(('en-us', carriers[(len(e) + r.year) % len(carriers)] % e, r))
     for i, e in enumerate(hour_exprs):
         jobs.append(('en-us', e, refs[i % len(refs)]))
+    # a bare day of the month (no month, no year) under a reference in EVERY month: day 29/30/31 does not exist in some of
+    # them — the value must be a valid date or 'not resolved' whatever the month of the reference (per-month length tables)
+    month_refs = [datetime.datetime(2019, m, 15, 0, 0, 0) for m in range(1, 13)] + [datetime.datetime(2020, 2, 10, 0, 0, 0),
+                                                                                     datetime.datetime(2100, 2, 3, 0, 0, 0)]
+    bare_days = [('en-us', ['the 31st', 'the 30th', 'the 29th', 'on the 31st']),
+                 ('zh-cn', ['31日', '31号', '三十一号', '30号', '三十号', '29日', '二十九号', '本月31号', '9月31日', '2月30日']),
+                 ('es-es', ['el 31', 'el día 30']), ('fr-fr', ['le 31', 'le 30']), ('pt-br', ['dia 31', 'no dia 30']),
+                 ('de-de', ['am 31.', 'der 30.']), ('it-it', ['il 31', 'il 30']), ('nl-nl', ['de 31e', 'de 30e'])]
+    for cul, es in bare_days:
+        for e in es:
+            for r in month_refs:
+                jobs.append((cul, e, r))
     return jobs
